@@ -12,6 +12,7 @@ import random
 
 from .. import core
 from .. import aliaslib as al
+from .. import replaylib as rl
 from ..util import exc_name
 
 NONE = al.NONE
@@ -60,12 +61,42 @@ def check_isolation(sc, exp, found, src_after=None, share=False):
     return outs
 
 
-def replay_alias(ctx, rec, accs, found):
+def _iso_worker(rec):
+    """one exported scenario of Isolation.tla on the real Split / Zip -> (findings, cases)"""
+    found, cases = {}, []
+    if not rec["brs"]:
+        return found, cases
+    sc = {k: rec[k] for k in ("brs", "N", "bs", "drv", "rq")}
+    check_isolation(sc, rec["exp"], found, rec["src"], share=False)
+    cases.append((rl.case_hash(["isolation", sc]), rec["N"] > 0 and len(rec["brs"]) > 1))
+    if len(rec["brs"]) > 1 and rec["N"] > 0:
+        # the same with stateless elements shared between the branches and nested sequences
+        check_isolation(sc, rec["exp"], found, rec["src"], share=True)
+        cases.append((rl.case_hash(["isolation-shared-elements", sc]), True))
+    return found, cases
+
+
+_ACCS = None
+_ONLY = None        # restriction of the two-result accumulators (thorough tier, longest histories)
+
+
+def _alias_worker(rec):
+    global _ACCS
+    if _ACCS is None:
+        _ACCS = al.accumulators()
+    found, cases, skipped = {}, [], [0]
+    replay_alias(rec, _ACCS, found, cases, skipped, _ONLY)
+    return found, cases, skipped[0]
+
+
+def replay_alias(rec, accs, found, cases, skipped, only=None):
     """One behaviour of Alias.tla on every real accumulator of its kind: after every action the contexts
     held by the producer and by the consumer must have the values of the spec."""
     kind, h = rec["kind"], rec["h"]
     for acc in accs:
         if acc.kind != kind["t"] or acc.nres != kind["nres"] or not acc.snapshot:
+            continue
+        if only is not None and acc.nres > 1 and acc.name not in only:
             continue
 
         def report(what, upto, extra):
@@ -84,7 +115,7 @@ def replay_alias(ctx, rec, accs, found):
                     got = run.compute()
                     if len(got) > acc.nres:
                         # the number of results is not C04's subject: the history cannot be aligned, skip it
-                        ctx.extra["alias_histories_skipped"] = ctx.extra.get("alias_histories_skipped", 0) + 1
+                        skipped[0] += 1
                         ok = False
                         break
                     for _pad in range(acc.nres - len(got)):
@@ -108,8 +139,8 @@ def replay_alias(ctx, rec, accs, found):
                 report("yielded-context-wrong:after-%s" % opname, idx + 1, {"expected": want_res, "observed": ress})
                 ok = False
                 break
-        ctx.case([acc.name, [[o["op"], o["arg"]] for o in h]],
-                 nontrivial=any(o["op"] == "c" for o in h) and any(o["op"] == "f" for o in h))
+        cases.append((rl.case_hash([acc.name, [[o["op"], o["arg"]] for o in h]]),
+                      any(o["op"] == "c" for o in h) and any(o["op"] == "f" for o in h)))
 
 
 def record_alias(rnd, acc, nops):
@@ -151,8 +182,14 @@ def run(ctx):
     ctx.assume("StoreFilled and GroupBy yield the filled values themselves and are exempt by the statement; "
                "NumpyHistogram is not exercised (numpy is not installed)")
     # ---- design level
-    ctx.mc("Isolation", "Isolation_%s.cfg" % tag, coverage=True,
-           must_cover=("ReadBlock", "BranchSrc", "BranchSeq", "BranchFC", "BranchFR", "BlockDone", "Final"))
+    cover_a = ("ReadBlock", "BranchSrc", "BranchSeq", "BranchFC", "BranchFR", "BlockDone", "Final")
+    cover_b = ("Fill", "Compute", "Mutate")
+    if ctx.thorough:
+        ctx.mc("Isolation", "Isolation_thorough.cfg", coverage=True, must_cover=cover_a)
+        recs_a = ctx.export("Isolation", "Isolation_thorough_export.cfg", min_records=1000)
+    else:
+        # quick: one TLC run checks the invariants and exports the scenarios
+        recs_a = rl.mc_and_export(ctx, "Isolation", "Isolation_quick.cfg", cover_a, min_records=1000)
     # sensitivity guards of the models (the quick tier runs one per model and the one-copy-per-call guard)
     guards_a = (("Isolation_nocopy.cfg", "Isolated"), ("Isolation_shallow.cfg", "Isolated"),
                 ("Isolation_eqlast.cfg", "Isolated"))
@@ -161,7 +198,11 @@ def run(ctx):
         res = ctx.mc("Isolation", cfg, expect_violation="report")
         if res.violated != prop:
             raise core.MachineryError("the isolation model is insensitive: %s did not refute %s" % (cfg, prop))
-    ctx.mc("Alias", "Alias_%s.cfg" % tag, coverage=True, must_cover=("Fill", "Compute", "Mutate"))
+    if ctx.thorough:
+        ctx.mc("Alias", "Alias_thorough.cfg", coverage=True, must_cover=cover_b)
+        recs_b = ctx.export("Alias", "Alias_thorough_export.cfg", min_records=500)
+    else:
+        recs_b = rl.mc_and_export(ctx, "Alias", "Alias_quick.cfg", cover_b, min_records=500)
     for cfg, prop in (guards_b if ctx.thorough else guards_b[:2]):
         res = ctx.mc("Alias", cfg, expect_violation="report")
         if res.violated != prop:
@@ -172,17 +213,12 @@ def run(ctx):
                                 "with one copy per call shared by its results: TLC refutes Fresh"]
     # ---- A, spec -> code
     found = {}
-    recs = ctx.export("Isolation", "Isolation_%s_export.cfg" % tag, min_records=1000)
-    for rec in recs:
-        if not rec["brs"]:
-            continue
-        sc = {k: rec[k] for k in ("brs", "N", "bs", "drv", "rq")}
-        check_isolation(sc, rec["exp"], found, rec["src"], share=False)
-        ctx.case(["isolation", sc], nontrivial=rec["N"] > 0 and len(rec["brs"]) > 1)
-        if len(rec["brs"]) > 1 and rec["N"] > 0:
-            # the same with stateless elements shared between the branches and nested sequences
-            check_isolation(sc, rec["exp"], found, rec["src"], share=True)
-            ctx.case(["isolation-shared-elements", sc])
+    recs = recs_a
+    for f, cases in rl.pmap(_iso_worker, recs):
+        rl.add_cases(ctx, cases)
+        for key, val in f.items():
+            if key not in found or _size(val["scenario"]) < _size(found[key]["scenario"]):
+                found[key] = val
     ctx.sample({"spec_behaviour_isolation": recs[len(recs) // 2]})
     # ---- A, code -> spec
     rnd = random.Random(ctx.seed)
@@ -220,11 +256,25 @@ def run(ctx):
         return None
     ctx.binding_demo("Trace_Isolation", "Trace_Isolation.cfg", trace, corrupt_iso)
     # ---- B, spec -> code
+    global _ONLY
     accs = al.accumulators()
     found_b = {}
-    recs = ctx.export("Alias", "Alias_%s_export.cfg" % tag, min_records=500)
-    for rec in recs:
-        replay_alias(ctx, rec, accs, found_b)
+    batches = [(recs_b, None)]
+    if ctx.thorough:
+        # the longest histories on all one-result accumulators and on two of the two-result ones; all
+        # two-result accumulators on the histories of the quick bound
+        batches = [(recs_b, ("SplitIntoBins(Split(Sum,Count))", "Vectorize(Mean(Split(Sum,Sum)))")),
+                   (ctx.export("Alias", "Alias_quick_export.cfg", min_records=500), None)]
+    for recs, only in batches:
+        _ONLY = only
+        for f, cases, skipped in rl.pmap(_alias_worker, recs):
+            rl.add_cases(ctx, cases)
+            if skipped:
+                ctx.extra["alias_histories_skipped"] = ctx.extra.get("alias_histories_skipped", 0) + skipped
+            for key, val in f.items():
+                if key not in found_b or len(val["history"]) < len(found_b[key]["history"]):
+                    found_b[key] = val
+    recs = recs_b
     ctx.sample({"spec_behaviour_alias": recs[len(recs) // 2]})
     for key in sorted(found_b):
         ctx.violation(key, found_b[key])
@@ -272,7 +322,7 @@ def run(ctx):
         ctx.violation("Trace_Alias:rejected:%s" % bad["acc"], {"history": evs[start:acc_n + 1]})
         pending = [part for part in pending if part[0]["acc"] != bad["acc"]]
     return ctx.finish(
-        rule="A (S2C): every scenario of the bounded Isolation model (branch lists over 11 templates of mutating "
+        rule="A (S2C): every scenario of the bounded Isolation model (branch lists over 13 templates of mutating "
              "branches, incl. repeated structurally equal branches in first/middle/last position, x flows x bufsizes x "
              "run/fill/request/Zip driving, each also with stateless elements shared between branches) executed on the real Split/Zip, every branch "
              "compared with its isolated result when yielded and at the end; (C2S) seeded random configurations "
